@@ -6,6 +6,7 @@ CONSTANTS
   Types = {"i8", "u16", "i32", "f32", "f64", "c8"}
   RasDims <- RDimsB
   ScaleSets <- ScalesAll
+  Grows = {1, 3}
   MaxObjs = 13
   MaxOps = 10
   Mix = FALSE
